@@ -8,8 +8,8 @@
    the state root and the change count are Section variables: ANY functions.  Everything the
    generator decides (iteration order, past/future classification, future lists, re-inclusion of
    future transactions, duplicate exclusion, cost limit, byte limit, built-in transactions) is
-   modelled as the code has it (tree with the fixes 3df99c9 cost-limit comparison against the
-   remaining budget and 2f9cdcc skip of pool transactions named like a built-in), including Go int64
+   modelled as the code has it (tree with the fixes fe583b6 cost-limit comparison against the
+   remaining budget and 1f71793 skip of pool transactions named like a built-in), including Go int64
    wrap-around of the unchecked additions and subtractions.
 
    Outside the model (oracles assumed not to fire; see checks/C45.json): context cancellation and
